@@ -38,7 +38,7 @@ def run(res, tier, only=None):
                               rule="7 command lists (default, single, mixed case, placeholder) x 8 credential maps (none, one, two, empty name, empty name + real, empty password, placeholders set / unset) x 6 method lists x 6 sub-negotiation variants x 5 command codes x address types; enumerated exhaustively by TLC"),
                    exhaustive=True, samples=s["samples"][:3],
                    server_sequence=dict(connections=s["server_sequence_connections"], legitimate_sessions_served=s["server_sequence_served"],
-                                        rule="through one real layer4 Server (socks5 matcher -> socks5 handler with credentials), consecutively: a non-SOCKS stream, a legitimate whole session, a one-byte client, a silent client, a session whose version byte arrives alone and whose remaining bytes name an unknown user (they would read as a valid login if the bytes the matcher looked at were lost), a legitimate session split the same way; 8 rounds on one P without garbage collection (pooled matching buffers pass from connection to connection)"))
+                                        rule="through one real layer4 Server (socks5 matcher -> socks5 handler with credentials), consecutively: a non-SOCKS stream, a legitimate whole session, a one-byte client, a silent client, a session whose version byte arrives alone and whose remaining bytes name an unknown user (they would read as a valid login if the bytes the matcher looked at were lost), a legitimate session split the same way, a session with a two-byte first segment in front of a valid one (to be refused as a whole); 8 rounds on one P without garbage collection (pooled matching buffers pass from connection to connection)"))
         traces = {}
         for line in open(tr):
             t = json.loads(line)
@@ -51,7 +51,7 @@ def run(res, tier, only=None):
             sig = "socks:cmd%d:" % t["sc"]["cmd"] + ("authreq" if t["cfg"]["creds"] else "noauth") + ":" + t["sc"]["auth"] + ":" + "+".join(sorted(x.split()[0] for x in cl))
             res.violation(sig, "; ".join(cl) + f" (trace {b['id']}: cfg {t['cfg']} script {t['sc']})", t)
         # vacuity of the server sequence - only when nothing was reported (a defect may well be the reason)
-        if not res.violations and s.get("server_sequence_served", 0) * 3 != s.get("server_sequence_connections", -1):
+        if not res.violations and s.get("server_sequence_served", 0) * 7 != s.get("server_sequence_connections", -1) * 2:
             raise Inconclusive(f"server sequence: {s.get('server_sequence_served')} legitimate sessions served out of {s.get('server_sequence_connections')} connections (vacuous?)")
         if only is not None:
             return dict(cases=len(g["vout"]))
